@@ -84,7 +84,90 @@ class Clock:
             raise ValueError(ev)
 
 
+class LibState:
+    """Process-global mutable state inside the library (module-level containers,
+    class-level containers, mutable default arguments, lru caches).  One run must
+    not see what an earlier run in the same worker process left there, or a seed
+    would stop being an exactly repeatable execution.  Pristine copies are taken
+    once, right after import; before every run anything that differs is restored
+    in place."""
+
+    def __init__(self):
+        import copy
+        import sys
+        import types
+        self.slots = []      # (container object, pristine deep copy)
+        self.caches = []
+        seen = set()
+
+        def note(obj):
+            if isinstance(obj, (dict, list, set)) and id(obj) not in seen and obj is not B.Node.store:
+                seen.add(id(obj))
+                try:
+                    self.slots.append((obj, copy.deepcopy(obj)))
+                except Exception:       # noqa: BLE001
+                    pass
+
+        def scan_function(fn):
+            fn = getattr(fn, "__func__", fn)
+            if hasattr(fn, "cache_clear"):
+                self.caches.append(fn)
+                fn = getattr(fn, "__wrapped__", fn)
+            if isinstance(fn, types.FunctionType):
+                for d in (fn.__defaults__ or ()):
+                    note(d)
+                for d in (fn.__kwdefaults__ or {}).values():
+                    note(d)
+
+        for name, mod in list(sys.modules.items()):
+            if not (name == "metapype" or name.startswith("metapype.")) or mod is None:
+                continue
+            for k, v in list(vars(mod).items()):
+                if k.startswith("__"):
+                    continue
+                if isinstance(v, type) and getattr(v, "__module__", None) == name:
+                    for ck, cv in list(vars(v).items()):
+                        if ck.startswith("__"):
+                            continue
+                        raw = cv.__func__ if isinstance(cv, (staticmethod, classmethod)) else cv
+                        if isinstance(raw, property):
+                            for f in (raw.fget, raw.fset, raw.fdel):
+                                if f is not None:
+                                    scan_function(f)
+                        elif callable(raw):
+                            scan_function(raw)
+                        else:
+                            note(raw)
+                elif callable(v) and getattr(v, "__module__", None) == name:
+                    scan_function(v)
+                elif not isinstance(v, types.ModuleType):
+                    note(v)
+        fn = getattr(B, "to_20210209", None)
+        if fn is not None:
+            scan_function(fn)
+
+    def reset(self):
+        n = 0
+        for obj, pristine in self.slots:
+            if obj != pristine:
+                import copy
+                fresh = copy.deepcopy(pristine)
+                if isinstance(obj, list):
+                    obj[:] = fresh
+                else:
+                    obj.clear()
+                    obj.update(fresh)
+                n += 1
+        for c in self.caches:
+            c.cache_clear()
+        return n
+
+
+LIB = LibState()
+
+
 def install(clock):
+    clock.lib_restored = LIB.reset()
     uuid._generate_time_safe = None
     if hasattr(uuid, "_UuidCreate"):
         uuid._UuidCreate = None
